@@ -87,11 +87,14 @@ static void step()
   const double mult = (double)s.multiplier_;
   size_t fill = (size_t)vf_i64("fill");
   vf_assume(fill <= W);
+  const long pin = (long)vf_param("pin");      // >= 0: only the full window with this replacement index
+  if (pin >= 0) {vf_assume(fill == W);}
   fill = (size_t)vf_enum((int64_t)fill);
   size_t index = fill;
   if (fill == W) {
     index = (size_t)vf_i64("index");
     vf_assume(index < W);
+    if (pin >= 0) {vf_assume(index == (size_t)pin);}
     index = (size_t)vf_enum((int64_t)index);
   }
   long long logical[65];
